@@ -320,6 +320,11 @@ impl Drop for BodyFut {
         }
         if self.inside.is_some() && self.pc < self.steps.len() + 1 {
             // destroyed before completion: cancelled (or unwinding)
+            if let Some(ins) = &self.inside {
+                if let Some((st, _)) = ins.stream_item {
+                    w().streams[st].cancelled_items += 1;
+                }
+            }
             if (self.key & PIPE_ITEM_FLAG) == 0 {
                 let world = w();
                 let r = &mut world.ops[self.key as usize];
